@@ -96,6 +96,17 @@ func c16BuilderSub(m Mode, src string, recs *[]c16Rec, sub bool) *parser.Builder
 		if c16Direct && t.Type == token.LBRACE {
 			return p.ParseBlockStatement()
 		}
+		if c16Lambda && t.Type == token.IDENT && t.Literal == "LAMBDA" && p.PeekToken.Type == token.LPAREN {
+			// a plugin construct with a parameter list and an expression body: LAMBDA ( a , b ) a + b ;
+			p.NextToken()
+			p.ParseFunctionParameters()
+			p.NextToken()
+			body := p.ParseExpression()
+			if !p.ExpectSemicolonASI() {
+				return nil
+			}
+			return &ast.ExpressionStatement{Expression: body}
+		}
 		return next()
 	})
 	useE(func(p *parser.Parser, next func() ast.Expression) ast.Expression {
@@ -199,6 +210,12 @@ var c16Install int
 
 var c16InstallNames = []string{"", "only an expression interceptor is installed", "only a statement interceptor is installed", "the asking interceptors sit between pass-through interceptors installed through a plugin"}
 
+// c16Lambda: the statement interceptor parses a construct of its own that has a parameter list (read with the
+// public ParseFunctionParameters) and an expression body; the program under test follows it.
+var c16Lambda bool
+
+const c16LambdaPrefix = "LAMBDA ( a , b ) a + b ;\n"
+
 // c16PushPop: the interceptors use the public PushContext / PopContext themselves, balanced, before asking.
 var c16PushPop bool
 
@@ -234,6 +251,24 @@ func c16NestC(src string, paths map[int]string, m Mode) (kind, detail, class str
 		c16PushPop = false
 		if k2 != "" {
 			return "plugin-context-" + k2, "with interceptors that push and pop a function context themselves (balanced) before asking: " + d2, c2, invocations, stacks
+		}
+	}
+	if kind == "" {
+		src2 := c16LambdaPrefix + src
+		paths2 := make(map[int]string, len(paths)+8)
+		for off, pth := range paths {
+			paths2[off+len(c16LambdaPrefix)] = pth
+		}
+		for i := 0; i < len(c16LambdaPrefix); i++ {
+			if c16LambdaPrefix[i] != ' ' && c16LambdaPrefix[i] != '\n' && (i == 0 || c16LambdaPrefix[i-1] == ' ') {
+				paths2[i] = "" // the tokens of the plugin construct are at top level
+			}
+		}
+		c16Lambda = true
+		k2, d2, c2, _, _ := c16NestSub(src2, paths2, m, false)
+		c16Lambda = false
+		if k2 != "" {
+			return "after-plugin-construct-" + k2, "after a plugin statement that reads a parameter list with ParseFunctionParameters and an expression body: " + d2, c2, invocations, stacks
 		}
 	}
 	if kind == "" {
@@ -682,7 +717,7 @@ var _ = lexer.NewBuilder
 func init() {
 	core.Register(&core.PropSpec{
 		ID: "C16", Level: "model_checking",
-		Rule:     "context stack vs reference nesting model: every chain of <= d nesting constructors (d=3 quick; 4 full alphabet + 5 reduced alphabet thorough) over {block, if/else/while/for block, function declaration, function expression as call argument / array element / object value / let initialiser / return value / IIFE / inside if-, while- and for-headers / operand / index} around 3 leaf bodies, with a sibling statement before and after the nested construct at every level, plus the statement families (brace-less bodies); each parsed (space layout and LF-in-every-gap layout) with one statement and one expression interceptor that record IsInFunction(), CurrentContext() and the current token; oracle per invocation: the token's nesting path recorded by the harness unparser (function body braces = function body, not an extra block) gives IsInFunction <=> path contains a function and CurrentContext = innermost element. Final-state clause: ALL token sequences <= n (4 quick, 5 thorough) x modes, all byte strings <= 4, every truncation of every nested program at a token boundary and every single-token deletion: after ParseProgram CurrentContext()=global and IsInFunction()=false, with and without interceptors. states = distinct context stacks observed at an invocation; transitions = interceptor invocations checked Added: every ordered pair of nesting constructors x leaf bodies side by side (top level and inside a function); chains of one constructor (and alternating pairs) nested 5, 9, 17, 33, 65 (129, 257 thorough) deep; one constructor around (and innermost inside) 8, 16, 32, 64 (128, 256) levels of another constructor, for every ordered pair; sub-parse clause: every program again with a statement interceptor that parses a nested snippet with a SECOND parser of the same builder before answering. Installation sets (round 11): every program again on builders that carry only the expression interceptor, only the statement interceptor, and both between pass-through interceptors installed through Install.",
+		Rule:     "context stack vs reference nesting model: every chain of <= d nesting constructors (d=3 quick; 4 full alphabet + 5 reduced alphabet thorough) over {block, if/else/while/for block, function declaration, function expression as call argument / array element / object value / let initialiser / return value / IIFE / inside if-, while- and for-headers / operand / index} around 3 leaf bodies, with a sibling statement before and after the nested construct at every level, plus the statement families (brace-less bodies); each parsed (space layout and LF-in-every-gap layout) with one statement and one expression interceptor that record IsInFunction(), CurrentContext() and the current token; oracle per invocation: the token's nesting path recorded by the harness unparser (function body braces = function body, not an extra block) gives IsInFunction <=> path contains a function and CurrentContext = innermost element. Final-state clause: ALL token sequences <= n (4 quick, 5 thorough) x modes, all byte strings <= 4, every truncation of every nested program at a token boundary and every single-token deletion: after ParseProgram CurrentContext()=global and IsInFunction()=false, with and without interceptors. states = distinct context stacks observed at an invocation; transitions = interceptor invocations checked Added: every ordered pair of nesting constructors x leaf bodies side by side (top level and inside a function); chains of one constructor (and alternating pairs) nested 5, 9, 17, 33, 65 (129, 257 thorough) deep; one constructor around (and innermost inside) 8, 16, 32, 64 (128, 256) levels of another constructor, for every ordered pair; sub-parse clause: every program again with a statement interceptor that parses a nested snippet with a SECOND parser of the same builder before answering. Installation sets (round 11): every program again on builders that carry only the expression interceptor, only the statement interceptor, and both between pass-through interceptors installed through Install. Plugin construct (round 12): every program again behind a plugin statement that reads a parameter list with the public ParseFunctionParameters and an expression body.",
 		Assume:   []string{"nesting paths come from the harness unparser; its statement structure is cross-checked against goja by C02"},
 		QuickSec: 300, ThorSec: 3600, Run: c16Run, Replay: c16Replay,
 		Evals: "programs_parsed", Nontriv: "programs_with_invocations", States: "states", Trans: "interceptor_invocations",
